@@ -1,7 +1,10 @@
 From Coq Require Import Extraction ExtrOcamlBasic.
-From RV Require Import Storage.Latch Storage.Contract.
+From RV Require Import Base.Bytes Storage.Backend Storage.Header Storage.Window Storage.Protocol Storage.Latch
+  Storage.FaultCommit.
 Extraction Language OCaml.
 Extraction "../ocaml/gen/c08_model.ml"
   log_okb log_check l_init lstep lrun
   dstep drun d_open begin_write_allowed
-  contract_okb prefix_okb first_bad m_init.
+  step_f commit_f close_f recovery_f fail_at first_fail step_calls recovery_calls nwindows_before f_init
+  run_step recovery_run all_windows open_window select_primary parse_hdr enc_hdr hm_god hm_slot cur_len layout_at
+  hget flag abs bytes_eqb.
